@@ -68,6 +68,8 @@ class TranscOps (α : Type) where
   abs : α → α
   rpow : α → α → α
   pi : α
+  /-- `scipy.special.zetac`: ζ(x) − 1 (only ever called at 3). -/
+  zetac : α → α
 
 def lanczosCoef : List Float :=
   [0.99999999999980993, 676.5203681218851, -1259.1392167224028, 771.32342877765313, -176.61502916214059,
@@ -103,5 +105,6 @@ instance : TranscOps Float where
   abs := Float.abs
   rpow := Float.pow
   pi := floatPi
+  zetac := fun x => if x == 3.0 then 0.2020569031595942 else 0.0 / 0.0
 
 end Qats
